@@ -798,6 +798,26 @@ func (d *c16Drv) hist(w []string) string {
 		}
 		d.sess[at(1)] = vNewSession(at(1), u.Uid(), lvl)
 		return "USER ok"
+	case "NEWACC": // NEWACC <u> <attachment templates>: {acc user="new"} from a session that is not logged in
+		u := at(1)
+		d.sess[u] = vNewSession(700+u, types.ZeroUid, auth.LevelNone)
+		id := d.nextID()
+		secret := base64.StdEncoding.EncodeToString([]byte("verif" + id + ":password" + id))
+		c := d.send(u, id, `{"acc":{"id":"`+id+`","user":"new","scheme":"basic","secret":"`+secret+
+			`","login":false,"desc":{"public":{"fn":"n`+w[1]+`"}}}`+c16Extra(d.expandList(w[2]))+`}`)
+		delete(d.sess, u)
+		if c == nil || c.Code != 201 {
+			return "NEWACC " + c16Code(c)
+		}
+		p, _ := c.Params.(map[string]any)
+		name, _ := p["user"].(string)
+		uid := types.ParseUserId(name)
+		if uid.IsZero() {
+			return "NEWACC nouser"
+		}
+		d.users[u] = uid
+		d.sess[u] = vNewSession(u, uid, auth.LevelAuth)
+		return "NEWACC 201"
 	case "TOPIC": // TOPIC <t> <owner> <attachment templates>
 		id := d.nextID()
 		c := d.send(at(2), id, `{"sub":{"id":"`+id+`","topic":"new","set":{"desc":{"public":{"fn":"t`+w[1]+`"}}}}`+
@@ -1046,6 +1066,15 @@ func TestVerifC16(t *testing.T) {
 	}
 	if !hdl.IsInitialized() {
 		if err := hdl.Init(json.RawMessage(`{"expire_in":1209600,"serial_num":1,"key":"wfaY2RgF2S1OQI/ZlK+LSrp1KB2jwAdGAIHQ7JZn+Kc="}`), "token"); err != nil {
+			t.Fatal(err)
+		}
+	}
+
+	// basic authenticator for {acc user="new"}
+	if bh := store.Store.GetLogicalAuthHandler("basic"); bh == nil {
+		t.Fatal("no basic authenticator")
+	} else if !bh.IsInitialized() {
+		if err := bh.Init(json.RawMessage(`{"add_to_tags":false,"min_login_length":3,"min_password_length":3}`), "basic"); err != nil {
 			t.Fatal(err)
 		}
 	}
